@@ -29,7 +29,23 @@ type pmWorld struct {
 
 const pmPrelude = `
 function c14_gmatch(s, p, sink)
-  for a1,a2,a3,a4,a5,a6,a7,a8,a9,a10,a11,a12 in string.gmatch(s, p) do sink(a1,a2,a3,a4,a5,a6,a7,a8,a9,a10,a11,a12) end
+  local n = 0
+  for a1,a2,a3,a4,a5,a6,a7,a8,a9,a10,a11,a12 in string.gmatch(s, p) do n = n + 1 sink(a1,a2,a3,a4,a5,a6,a7,a8,a9,a10,a11,a12) end
+  -- the iterator is ONE self-contained function (manual: "returns an iterator function that, each time it is
+  -- called, returns the next captures"): driven by hand, without arguments, it yields the same sequence and,
+  -- once exhausted, keeps returning nothing
+  local it, extra = string.gmatch(s, p)
+  if extra ~= nil then error("c14: gmatch returned a second value") end
+  local m = 0
+  while true do
+    local a1,a2,a3,a4,a5,a6,a7,a8,a9,a10,a11,a12 = it()
+    if a1 == nil then break end
+    m = m + 1
+    sink("#byhand", m, a1,a2,a3,a4,a5,a6,a7,a8,a9,a10,a11,a12)
+    if m > n then error("c14: the hand-driven iterator yields more matches than the generic for") end
+  end
+  if m ~= n then error("c14: the hand-driven iterator yields " .. m .. " matches, the generic for " .. n) end
+  if it() ~= nil or select("#", it()) ~= 0 then error("c14: exhausted gmatch iterator returned a value") end
 end
 `
 
@@ -98,11 +114,23 @@ func (w *pmWorld) implGmatch(pat, subj string) []string {
 	w.tuples = w.tuples[:0]
 	sink := w.L.NewFunction(func(L *lua.LState) int {
 		var t []lua.LValue
-		for i := 1; i <= L.GetTop(); i++ {
+		first := 1
+		if s, ok := L.Get(1).(lua.LString); ok && s == "#byhand" && L.GetTop() >= 2 {
+			// a tuple of the hand-driven pass: must equal the tuple the generic for delivered at that position
+			first = 3
+		}
+		for i := first; i <= L.GetTop(); i++ {
 			if L.Get(i) == lua.LNil {
 				break
 			}
 			t = append(t, L.Get(i))
+		}
+		if first == 3 {
+			k := int(L.Get(2).(lua.LNumber)) - 1
+			if k < 0 || k >= len(w.tuples) || strings.Join(encVals(t), " ") != strings.Join(encVals(w.tuples[k]), " ") {
+				L.RaiseError("c14: hand-driven gmatch tuple %d differs from the generic-for tuple", k+1)
+			}
+			return 0
 		}
 		w.tuples = append(w.tuples, t)
 		return 0
